@@ -103,11 +103,11 @@ pub(crate) mod __verif_kani {
             }
         }
     }
-    //@ kind=B props=C13 bound=all_inputs_of_length_4 fn=validate_utf8_scalar : for ALL 2^32 byte strings of length 4: Ok iff well-formed (Unicode Table 3-7); on Err the kind names the rule violated at the end of the longest valid prefix, line/column are those of the reported offset, and the offset equals the longest-valid-prefix length except for the InvalidContinuationByte kind (known finding F6)
+    //@ kind=B props=C13 tier=thorough bound=all_inputs_of_length_4 fn=validate_utf8_scalar : for ALL 2^32 byte strings of length 4: Ok iff well-formed (Unicode Table 3-7); on Err the kind names the rule violated at the end of the longest valid prefix, line/column are those of the reported offset, and the offset equals the longest-valid-prefix length except for the InvalidContinuationByte kind (known finding F6)
     #[kani::proof]
     #[kani::unwind(10)]
     pub fn c13_scalar_len4() { scalar_case::<4>(false); }
-    //@ kind=B props=C13 bound=all_inputs_of_length_3 fn=validate_utf8_scalar : same for all strings of length 3 (truncations of 4-byte forms)
+    //@ kind=B props=C13 tier=thorough bound=all_inputs_of_length_3 fn=validate_utf8_scalar : same for all strings of length 3 (truncations of 4-byte forms)
     #[kani::proof]
     #[kani::unwind(10)]
     pub fn c13_scalar_len3() { scalar_case::<3>(false); }
@@ -116,10 +116,17 @@ pub(crate) mod __verif_kani {
     #[kani::unwind(10)]
     pub fn c13_scalar_len2() { scalar_case::<2>(false); }
 
-    //@ kind=B props=C13 known=F6 bound=all_inputs_of_length_3 fn=validate_utf8_scalar : property as worded: on rejection the offset is the length of the longest valid prefix, also when the violated rule is a bad continuation byte
+    //@ kind=B props=C13 known=F6 bound=the_input_E2_28_A1 fn=validate_utf8_scalar : property as worded, on the input [0xE2, 0x28, 0xA1]: on rejection the offset is the length of the longest valid prefix (0)
     #[kani::proof]
     #[kani::unwind(10)]
-    pub fn c13_scalar_offset_is_valid_prefix_len() { scalar_case::<3>(true); }
+    pub fn c13_scalar_offset_is_valid_prefix_len() {
+        let b: [u8; 3] = [0xE2, 0x28, 0xA1];
+        let p = wf_prefix(&b, 3);
+        match validate_utf8_scalar(&b) {
+            Ok(()) => assert!(p == 3),
+            Err(e) => { assert!(p < 3); assert!(e.offset == p); }
+        }
+    }
 
     //@ kind=P props=C13 fn=line_and_column : SWAR newline counter == naive count for every 19-byte buffer and every offset <= 19 (two full 8-byte words plus a 3-byte scalar tail)
     #[kani::proof]
